@@ -157,6 +157,7 @@ def run(F, rep, tier):
     c09.list_polarity_rule(F, rep)
     from props import c03_fold
     c03_fold.run(F, rep, tier)
+    c03_fold.run_matching(F, rep, tier)
     # ---------------- R03.1
     bld = F.hir.get(DT + "build_decision_table_evaluator")
     if bld is None:
@@ -563,7 +564,22 @@ def run(F, rep, tier):
                 if op[0] in ("C", "M"):
                     flag_locals.add(op[1][0])
     if not flag_locals:
-        rep.missing_anchor(r3, "construction of EvaluatedRule in evaluate_parsed_decision_table")
+        # no `matches` flag built in this body (the rules may be evaluated by an iterator chain): the same statement is decided by folding the function on parsed tables (R03.11)
+        from props import c03_fold
+        probe = []
+        import itertools as _it
+        for k in (0, 1, 2):
+            for ins in _it.product((True, False, None), repeat=k):
+                v, _note = c03_fold.fold_table(F, c03_fold.parsed_table([(list(ins), ["a"])], [None], [None]))
+                try:
+                    m = v[1]["evaluated_rules"][1][0][1]["matches"]
+                    probe.append(m[0] in ("bool", "lit") and m[1] is all(t is True for t in ins))
+                except (TypeError, KeyError, IndexError):
+                    probe.append(False)
+        if probe and all(probe):
+            rep.ok(r3, "matches-flag", "no match flag in this form; folded on %d parsed rules: a rule matches exactly when every input entry is true (see R03.11)" % len(probe))
+        else:
+            rep.missing_anchor(r3, "construction of EvaluatedRule in evaluate_parsed_decision_table")
         return
     # follow copies back to the mutable flag variable
     work = list(flag_locals)
